@@ -11,12 +11,73 @@ from .common import Driver, F, I, unF, same_bits
 from .stubs import NumState, LinEnv, Obj
 
 RULE = ("sedimentation and mine: mixtures of suspended/settled/previously-settled particles, depths around H, bottom "
-        "speeds making tau =, <, > taucrit (to 1e-9 relative), sink velocities 0..0.1, all mixing methods, numeric and "
-        "boolean flag carriers, single updates and 2..6-step histories; grain-size rasters: shipped file + synthetic "
-        "(3..7 x 3..7, ascending/descending axes), query points inside, on cell borders and outside. Non-trivial: >=1 particle / point.")
+        "speeds making tau =, <, > taucrit (to 1e-9 relative; exactly equal for taucrit 0 at rest), sink velocities 0..0.1, "
+        "all mixing methods, numeric and boolean flag carriers, single updates and 2..6-step histories (thorough: up to 20) "
+        "in which the tracker moves suspended particles over the sloping bed, particles are removed / released and the "
+        "bottom current of every particle is re-drawn around its threshold between the steps (~70%); critical stress: "
+        "absent, 0, constant (scalar or {method: constant}), mine 1000 / 2000 / 999.9 / key omitted, and (sedimentation, "
+        "~35%) grain_size_bin / grain_size_poly maps read from synthetic rasters with the stub grid mapping (X, Y) to "
+        "(lon, lat) with different slopes so that particles lie in different cells, bottom speeds drawn around each "
+        "particle's own threshold; the stub bottom current is the case's (ub, vb) only at the bed of the particle's "
+        "position (7 m/s stronger anywhere else); mine: states without an `active` variable (taucrit >= 1000), vertical "
+        "advection with a depth-dependent current w + wz*z (~30%); grain-size rasters: shipped file + synthetic "
+        "(3..7 x 3..7, ascending/descending axes, stored [lat,lon] or [lon,lat], NaN cells, a second variable / other "
+        "variable name), query points inside, exactly on / one ulp beside cell borders and outside; bottom-stress cache "
+        "histories for both modules with changing particle sets. Non-trivial: >=1 particle / point.")
 ASSUMPTIONS = ["threshold comparisons within 1e-9 relative of tau = taucrit are not judged by the oracle (rounding of "
-               "sqrt(c*U2)^2*1000 vs 1000*c*U2); the bit-exact correspondence with the model pins them"]
+               "sqrt(c*U2)^2*1000 vs 1000*c*U2) unless both sides are exactly 0; the bit-exact correspondence with the "
+               "model pins them",
+               "with mixing present the oracle's expected depth replays the documented scheme (constant: Gaussian kick "
+               "sqrt(2K dt) xi reflected at surface and bed; bounded_linear: kappa=0.41 linear profile capped at max_diff, "
+               "absorbing bed, reflecting surface; mine: kick reflected at the surface) on the recorded draw, then adds "
+               "sink velocity x dt (+ dt x vertical current at the depth after the kick for mine with vertical_advection)",
+               "whether a particle whose age exceeds the lifespan is removed is C07's subject: the oracle on `alive` judges "
+               "only particles within their lifespan; mine particles that are already settled when an update without "
+               "resuspension starts are not judged (the code removes particles in the update in which they settle)",
+               "for grain-size-map cases the model request carries each particle's critical stress as found by an "
+               "exhaustive nearest-cell search of the harness (the cell lookup itself is compared with the model in the "
+               "raster experiment)"]
 SITE = "ladim_plugins/%s/ibm.py"
+
+
+def after_sink(name, case, res, i):
+    """depth of a suspended particle after the random walk and the sinking, before it is compared with the bed
+    (replay of the documented scheme on the recorded draw, same operations in the same order); None when the draws of
+    the update are not known (draw schedule differs from the expected one: reported as a disagreement elsewhere)"""
+    if res["sched"][0] != res["sched"][1]:
+        return None
+    b, a = res["before"], res["after"]
+    z = float(b["z"][i]); H = float(res["meta"]["H"][i]); xi = float(res["xi"][i]); dt = float(case["dt"])
+    sv = float(a["sink"][i])
+    if name == "mine":
+        z1 = z + math.sqrt(2 * case["vdiff"]) * (xi * math.sqrt(dt))
+        z1 = -z1 if z1 < 0 else z1
+        w = sv + (float(res["meta"]["w"][i]) if case["vadv"] else 0.0)
+        return z1 + dt * w
+    mixing = case["mixing"]
+    if mixing is None:
+        z1 = z
+    elif isinstance(mixing, dict) and mixing["method"] == "bounded_linear":
+        ustar = math.sqrt(0.003 * (case["ub"][i] * case["ub"][i] + case["vb"][i] * case["vb"][i]))
+        dA = 0.41 * ustar
+        A = dA * max(H - z, 0.0)
+        if A > mixing["max_diff"]:
+            A = float(mixing["max_diff"]); dA = 0.0
+        up = A + 0.5 * (dA * dA) * dt
+        w = -dA + xi * math.sqrt(2 * up / dt)
+        z1 = z + dt * w
+        if z1 >= H:
+            z1 = H
+        if z1 < 0:
+            z1 = -z1
+    else:
+        v = mixing["value"] if isinstance(mixing, dict) else mixing
+        z1 = z + math.sqrt(2 * v) * (xi * math.sqrt(dt))
+        if z1 < 0:
+            z1 = -z1
+        if z1 > H:
+            z1 = 2 * H - z1
+    return z1 + dt * sv
 
 
 def oracle(ctx, name, case, res):
@@ -24,14 +85,25 @@ def oracle(ctx, name, case, res):
     site = SITE % name
     H = res["meta"]["H"]
     a1 = res["mask_active"]
+    has_flag = not case.get("no_active")
+    tcs = res["meta"].get("tc")                      # per-particle critical stress (grain-size maps), else the constant
+    amb = res["meta"].get("tc_ambiguous")
+    if case.get("taucrit_map"):
+        ctx.branch("sedimentation.update_with_%s_map" % case["taucrit_map"]["method"])
+        if n:
+            ctx.branch("sedimentation.map_distinct_thresholds_in_one_update", int(len(set(tcs)) > 1))
+    if name == "mine" and case.get("wz") and case["vadv"]:
+        ctx.branch("mine.depth_dependent_vertical_current")
     for i in range(n):
         cs = dict(module=name, case=ibmrun.case_summary(case), particle=i,
                   before={k: v[i] for k, v in b.items()}, after={k: v[i] for k, v in a.items()}, xi=res["xi"][i])
         tau = 1000 * 0.003 * (case["ub"][i] ** 2 + case["vb"][i] ** 2)
-        tc = case["taucrit"]
+        tc = case["taucrit"] if tcs is None else tcs[i]
         if name == "mine" and tc is not None and tc >= 1000:
             tc = None
-        if b["active"][i] == 0:
+        if tcs is not None and tc is not None:
+            cs["taucrit_of_particle"] = tc
+        if b["active"][i] == 0 and not (amb is not None and amb[i]):
             if tc is None:
                 ctx.oracle(not a1[i] and a["active"][i] == 0 and same_bits(a["z"][i], b["z"][i]),
                            "C08.%s.resuspends_without_taucrit" % name, site, "settled particle moved/activated without taucrit", cs)
@@ -42,9 +114,15 @@ def oracle(ctx, name, case, res):
                 ctx.oracle(not a1[i] and a["active"][i] == 0 and same_bits(a["z"][i], b["z"][i]),
                            "C08.%s.resuspension_below_threshold" % name, site,
                            "tau=%r < taucrit=%r but particle resuspended or moved" % (tau, tc), cs)
+            elif tau == 0.0 and tc == 0.0:
+                # both sides exactly 0 (no current, taucrit 0): the stress *reaches* the critical stress
+                ctx.branch("%s.threshold_exactly_reached" % name)
+                ctx.oracle(bool(a1[i]), "C08.%s.no_resuspension_at_threshold" % name, site,
+                           "tau = taucrit = 0 exactly but particle stays settled", cs)
+        zs_ref = after_sink(name, case, res, i) if a1[i] else None
         if a1[i]:
             sv = a["sink"][i]
-            w = sv + (case["w"] if (name == "mine" and case["vadv"]) else 0.0)
+            w = sv + (res["meta"]["w"][i] if (name == "mine" and case["vadv"]) else 0.0)
             no_mix = (case["mixing"] is None) if name == "sedimentation" else (case["vdiff"] == 0.0)
             if no_mix:
                 zs = b["z"][i] + case["dt"] * w
@@ -53,7 +131,7 @@ def oracle(ctx, name, case, res):
                     z1 = -z1 if z1 < 0 else z1
                     zs = z1 + case["dt"] * w
                 if zs > H[i]:
-                    ctx.oracle(same_bits(a["z"][i], H[i]) and a["active"][i] == 0, "C08.%s.settle_on_bed" % name, site,
+                    ctx.oracle(same_bits(a["z"][i], H[i]) and (a["active"][i] == 0 or not has_flag), "C08.%s.settle_on_bed" % name, site,
                                "sunk to %r > H=%r but Z'=%r active'=%r" % (zs, H[i], a["z"][i], a["active"][i]), cs)
                     if name == "mine" and tc is None:
                         ctx.oracle(not a["alive"][i], "C08.mine.settled_stays_in_simulation", site,
@@ -64,17 +142,86 @@ def oracle(ctx, name, case, res):
             else:
                 ctx.oracle(a["z"][i] <= H[i] and (a["active"][i] != 0 or same_bits(a["z"][i], H[i])),
                            "C08.%s.settle_on_bed" % name, site, "Z'=%r H=%r active'=%r" % (a["z"][i], H[i], a["active"][i]), cs)
-        if case["carrier"] == "numeric":
+                if zs_ref is not None:
+                    # exact sinking distance with the mixing present
+                    ctx.branch("%s.sink_judged_with_mixing" % name)
+                    if zs_ref > H[i]:
+                        ctx.oracle(same_bits(a["z"][i], H[i]) and (a["active"][i] == 0 or not has_flag),
+                                   "C08.%s.settle_on_bed_mixed" % name, site,
+                                   "mixed and sunk to %r > H=%r but Z'=%r active'=%r" % (zs_ref, H[i], a["z"][i], a["active"][i]), cs)
+                    else:
+                        ctx.oracle(same_bits(a["z"][i], zs_ref) and a["active"][i] != 0, "C08.%s.sink_exact_mixed" % name, site,
+                                   "Z=%r: mixing draw %r then sink_vel*dt=%r: expected %r got %r active'=%r"
+                                   % (b["z"][i], res["xi"][i], case["dt"] * w, zs_ref, a["z"][i], a["active"][i]), cs)
+        # who leaves the simulation: in the mining variant without resuspension the particles that settle; settling,
+        # resting, sinking or resuspending removes nobody else (removal by age is C07's subject)
+        if b["alive"][i] and a["age"][i] <= case["lifespan"]:
+            if has_flag:
+                settled_now = bool(a1[i]) and a["active"][i] == 0
+            else:
+                settled_now = None if zs_ref is None else zs_ref > H[i]
+            if settled_now is None or (name == "mine" and tc is None and b["active"][i] == 0):
+                pass
+            elif name == "mine" and tc is None and settled_now:
+                ctx.branch("mine.settled_leaves")
+                ctx.oracle(not a["alive"][i], "C08.mine.settled_stays_in_simulation", site,
+                           "settled without resuspension but still alive", cs)
+            else:
+                ctx.oracle(bool(a["alive"][i]), "C08.%s.removed_without_reason" % name, site,
+                           "particle within its lifespan (age'=%r <= %r), %s, but alive'=False"
+                           % (a["age"][i], case["lifespan"], "settled" if settled_now else "not settled in this update"), cs)
+        if case["carrier"] == "numeric" and has_flag:
             want2 = (a["active"][i] != 0) and (b["active"][i] != 1)
             ctx.oracle((a["active"][i] == 2) == want2 and a["active"][i] in (0, 1, 2), "C08.%s.flag_distinct" % name, site,
                        "active %r -> %r" % (b["active"][i], a["active"][i]), cs)
 
 
 # ---------------------------------------------------------------------------------------- grain size maps
-def write_raster(path, clon, clat, vals):
+def write_raster(path, clon, clat, vals, varname="grain_size", lon_first=False, extra=None):
+    """`vals`: [lat, lon].  `lon_first`: the variable is stored with dimensions (longitude, latitude);
+    `extra`: a second variable (other name, other values) stored next to it"""
     import xarray as xr
-    ds = xr.Dataset(dict(grain_size=(("latitude", "longitude"), vals)), coords=dict(latitude=clat, longitude=clon))
+    dv = {varname: (("longitude", "latitude"), np.ascontiguousarray(vals.T)) if lon_first else (("latitude", "longitude"), vals)}
+    if extra is not None:
+        dv[extra[0]] = (("latitude", "longitude"), extra[1])
+    ds = xr.Dataset(dv, coords=dict(latitude=clat, longitude=clon))
     ds.to_netcdf(path)
+
+
+def make_rasters(ctx, tmp, count, tag="r"):
+    """synthetic grain-size rasters: dict(source, varname, clon, clat, grain[lat, lon])"""
+    out = []
+    for r in range(count):
+        ni = ctx.rng.randrange(3, 8); nj = ctx.rng.randrange(3, 8)
+        dlon = ctx.rng.choice([0.01, 0.125, -0.01, 0.5]); dlat = ctx.rng.choice([0.01, -0.02, 0.25])
+        clon = 5.0 + dlon * np.arange(ni); clat = 60.0 + dlat * np.arange(nj)
+        vals = np.array([[ctx.rng.choice([0, 10, 69, 70, 100, 180, 181, 500]) for _ in range(ni)] for _ in range(nj)],
+                        dtype=ctx.rng.choice(["int32", "float64"]))
+        has_nan = False
+        if vals.dtype == np.float64 and ctx.rng.random() < 0.5:
+            # cells without a grain size (NaN): they count as grain size 0, i.e. the default stress
+            for _ in range(ctx.rng.randrange(1, 4)):
+                vals[ctx.rng.randrange(nj), ctx.rng.randrange(ni)] = np.nan
+            has_nan = True
+        varname = ctx.rng.choice(["grain_size", "grain_size", "d50"])
+        lon_first = ctx.rng.random() < 0.4
+        extra = None
+        if ctx.rng.random() < 0.4:
+            other = "grain_size" if varname != "grain_size" else "mud_fraction"
+            extra = (other, np.array([[float(ctx.rng.choice([0, 10, 100, 500])) for _ in range(ni)] for _ in range(nj)]))
+        p = os.path.join(tmp, "%s%d.nc" % (tag, r))
+        write_raster(p, clon, clat, vals, varname, lon_first, extra)
+        out.append(dict(source=p, varname=varname, clon=clon, clat=clat, grain=vals.astype(float), lon_first=lon_first,
+                        has_nan=has_nan, second_variable=extra is not None))
+    return out
+
+
+def border_points(ctx, c, d):
+    """a coordinate exactly on the border between two cells (exact when the step is a binary fraction) or one ulp
+    beside it"""
+    k = ctx.rng.randrange(len(c))
+    v = c[k] + ctx.rng.choice([0.5, -0.5]) * d
+    return ctx.rng.choice([v, np.nextafter(v, -1e9), np.nextafter(v, 1e9)])
 
 
 def grain(ctx, drv):
@@ -82,31 +229,37 @@ def grain(ctx, drv):
     tmp = tempfile.mkdtemp(prefix="verif_c08_")
     pend = []
     try:
-        rasters = [os.path.join(os.path.dirname(M.__file__), "grainsize.nc")]
-        for r in range(ctx.n(6, 60)):
-            ni = ctx.rng.randrange(3, 8); nj = ctx.rng.randrange(3, 8)
-            dlon = ctx.rng.choice([0.01, 0.125, -0.01, 0.5]); dlat = ctx.rng.choice([0.01, -0.02, 0.25])
-            clon = 5.0 + dlon * np.arange(ni); clat = 60.0 + dlat * np.arange(nj)
-            vals = np.array([[ctx.rng.choice([0, 10, 69, 70, 100, 180, 181, 500]) for _ in range(ni)] for _ in range(nj)],
-                            dtype=ctx.rng.choice(["int32", "float64"]))
-            p = os.path.join(tmp, "r%d.nc" % r)
-            write_raster(p, clon, clat, vals)
-            rasters.append(p)
+        shipped = os.path.join(os.path.dirname(M.__file__), "grainsize.nc")
+        rasters = [dict(source=shipped, varname="grain_size")] + make_rasters(ctx, tmp, ctx.n(6, 60))
         import xarray as xr
-        for path in rasters:
+        for ras in rasters:
+            path = ras["source"]; varname = ras["varname"]
             with xr.open_dataset(path) as ds:
-                g = ds["grain_size"].transpose("latitude", "longitude").values.astype(float)
+                g = ds[varname].transpose("latitude", "longitude").values.astype(float)
                 clat = ds.latitude.values.astype(float); clon = ds.longitude.values.astype(float)
+            if ras.get("lon_first"):
+                ctx.branch("grain.raster_stored_lon_lat")
+            if ras.get("has_nan"):
+                ctx.branch("grain.raster_with_nan_cells")
+            if ras.get("second_variable") or varname != "grain_size":
+                ctx.branch("grain.raster_other_variable_name_or_second_variable")
             dlon = clon[1] - clon[0]; dlat = clat[1] - clat[0]
             for method in ("grain_size_bin", "grain_size_poly"):
-                fn = M.get_taucrit_fn(dict(method=method, source=path, varname="grain_size"))
+                fn = M.get_taucrit_fn(dict(method=method, source=path, varname=varname))
                 npts = 30
                 lon = np.array([ctx.rng.choice([clon[ctx.rng.randrange(len(clon))],
                                                 clon[0] + dlon * ctx.rng.uniform(-1.5, len(clon) + 0.5),
-                                                clon[ctx.rng.randrange(len(clon))] + 0.49 * dlon]) for _ in range(npts)])
+                                                clon[ctx.rng.randrange(len(clon))] + 0.49 * dlon,
+                                                border_points(ctx, clon, dlon)]) for _ in range(npts)])
                 lat = np.array([ctx.rng.choice([clat[ctx.rng.randrange(len(clat))],
                                                 clat[0] + dlat * ctx.rng.uniform(-1.5, len(clat) + 0.5),
-                                                clat[ctx.rng.randrange(len(clat))] - 0.49 * dlat]) for _ in range(npts)])
+                                                clat[ctx.rng.randrange(len(clat))] - 0.49 * dlat,
+                                                border_points(ctx, clat, dlat)]) for _ in range(npts)])
+                if ras.get("has_nan"):
+                    # make sure cells without a value are asked for
+                    jj, ii = np.nonzero(np.isnan(g))
+                    for k in range(min(len(jj), 3)):
+                        lon[k] = clon[ii[k]] + 0.2 * dlon; lat[k] = clat[jj[k]] - 0.2 * dlat
                 tau = np.asarray(fn(lon, lat), dtype=float)
                 for k in range(npts):
                     # exhaustive nearest-cell search (clamped outside)
@@ -114,9 +267,11 @@ def grain(ctx, drv):
                     near_i = set(np.flatnonzero(di <= di.min() * (1 + 1e-9) + 1e-12).tolist())
                     near_j = set(np.flatnonzero(dj <= dj.min() * (1 + 1e-9) + 1e-12).tolist())
                     cand = set()
+                    nan_cell = False
                     for i in near_i:
                         for j in near_j:
                             sed = g[j, i]
+                            nan_cell = nan_cell or sed != sed
                             sed = 0.0 if sed != sed else sed
                             if method == "grain_size_bin":
                                 t = 0.12
@@ -126,9 +281,14 @@ def grain(ctx, drv):
                             else:
                                 t = 0.12 if sed == 0 else 6e-6 * sed ** 2 + 3e-5 * sed + 0.0591
                             cand.add(t)
-                    cs = dict(raster=os.path.basename(path), method=method, lon=lon[k], lat=lat[k], clon=clon, clat=clat, got=tau[k])
+                    cs = dict(raster=os.path.basename(path), method=method, lon=lon[k], lat=lat[k], clon=clon, clat=clat, got=tau[k],
+                              varname=varname, stored_lon_first=bool(ras.get("lon_first")))
                     ctx.case(key=("grain", path, method, float(lon[k]), float(lat[k])), nontrivial=True)
                     ctx.branch("grain.%s" % method)
+                    if nan_cell:
+                        ctx.branch("grain.query_in_nan_cell")
+                    if len(near_i) > 1 or len(near_j) > 1:
+                        ctx.branch("grain.query_on_cell_border")
                     ctx.oracle(any(abs(tau[k] - t) <= 1e-12 for t in cand), "C08.grain.nearest_cell_taucrit",
                                SITE % "sedimentation", "taucrit %r is not that of the nearest cell %r" % (tau[k], sorted(cand)), cs)
                     if drv.available:
@@ -152,36 +312,190 @@ def grain(ctx, drv):
 # ---------------------------------------------------------------------------------------- cached bottom stress
 def cache_histories(ctx):
     """over a history with increasing step counter and changing particle sets the resuspension decision must use the
-    current bottom current (cached value == fresh computation)"""
-    M = ibmrun.mod("sedimentation")
-    for h in range(ctx.n(15, 200)):
-        ibm = M.IBM(dict(dt=60.0, ibm=dict(lifespan=1e9, taucrit=0.12, vertical_mixing=ctx.rng.choice([None, 1e-3]) or 0)))
-        if ibm.vdiff_fn is None:
-            pass
-        env = LinEnv(h0=30.0)
-        tstep = 0
-        for s in range(ctx.rng.randrange(2, 6)):
-            tstep += ctx.rng.choice([1, 1, 2])
-            n = ctx.rng.randrange(1, 6)
-            ub = np.array([ctx.rng.choice([0.0, 0.1, 0.3, 0.5]) for _ in range(n)])
-            st = NumState(X=np.full(n, 5.0), Y=np.full(n, 5.0), Z=np.full(n, 30.0), active=np.zeros(n),
-                          alive=np.ones(n, bool), age=np.zeros(n), sink_vel=np.full(n, 1e-9), pid=np.arange(n),
-                          dt=60.0, timestep=tstep)
-            forcing = Obj(velocity=lambda x, y, z, tstep=0, _u=ub: (_u.copy(), np.zeros_like(_u)))
-            from .common import RngRecorder
-            with RngRecorder(ctx.sub_seed()):
-                ibm.update_ibm(env.grid(), st, forcing)
-            fresh = np.sqrt(0.003 * (ub * ub))
-            ok = ibm._ustar is not None and len(ibm._ustar) == n and all(same_bits(x, y) for x, y in zip(ibm._ustar, fresh))
-            ctx.case(key=("cache", h, s, repr(ub.tolist())), nontrivial=True)
-            ctx.branch("sed.cache_history_step")
-            ctx.oracle(ok, "C08.sedimentation.stale_bottom_stress", SITE % "sedimentation",
-                       "cached ustar %r differs from fresh %r at timestep %d" % (ibm._ustar, fresh, tstep),
-                       dict(history=h, step=s, ub=ub, timestep=tstep))
+    current bottom current (cached value == fresh computation), in both modules"""
+    from .common import RngRecorder
+    for name in ("sedimentation", "mine"):
+        M = ibmrun.mod(name)
+        tagname = "sed" if name == "sedimentation" else "mine"
+        for h in range(ctx.n(15, 200)):
+            conf = dict(dt=60.0, ibm=dict(lifespan=1e9, taucrit=0.12, vertical_mixing=ctx.rng.choice([None, 1e-3]) or 0))
+            if name == "mine":
+                conf["ibm"]["land_collision"] = "freeze"
+                conf["output_instance"] = []; conf["nc_attributes"] = {}
+            ibm = M.IBM(conf)
+            env = LinEnv(h0=30.0)
+            tstep = 0
+            for s in range(ctx.rng.randrange(2, 6)):
+                tstep += ctx.rng.choice([1, 1, 2])
+                n = ctx.rng.randrange(1, 6)
+                ub = np.array([ctx.rng.choice([0.0, 0.1, 0.3, 0.5]) for _ in range(n)])
+                st = NumState(X=np.full(n, 5.0), Y=np.full(n, 5.0), Z=np.full(n, 30.0), active=np.zeros(n),
+                              alive=np.ones(n, bool), age=np.zeros(n), sink_vel=np.full(n, 1e-9), pid=np.arange(n),
+                              dt=60.0, timestep=tstep)
+
+                def velocity(x, y, z, tstep=0, _u=ub):
+                    # the bottom current: (ub, 0) at the bed of the particle's position, much stronger elsewhere
+                    u = _u.copy()
+                    off = np.asarray(z, dtype=float) != env.depth(x, y)
+                    u[off] += ibmrun.OFF_BED_SPEED
+                    return u, np.zeros_like(u)
+                forcing = Obj(velocity=velocity)
+                seen = {}
+                orig = ibm.diffuse
+
+                def wrapped(_st=st, _seen=seen, _orig=orig):
+                    _seen["a"] = (np.asarray(_st.active) != 0).copy()
+                    _orig()
+                ibm.diffuse = wrapped
+                with RngRecorder(ctx.sub_seed()):
+                    ibm.update_ibm(env.grid(), st, forcing)
+                ibm.diffuse = orig
+                fresh = np.sqrt(0.003 * (ub * ub))
+                ok = ibm._ustar is not None and len(ibm._ustar) == n and all(same_bits(x, y) for x, y in zip(ibm._ustar, fresh))
+                ctx.case(key=("cache", name, h, s, repr(ub.tolist())), nontrivial=True)
+                ctx.branch("%s.cache_history_step" % tagname)
+                cs = dict(module=name, history=h, step=s, ub=ub, timestep=tstep)
+                ctx.oracle(ok, "C08.%s.stale_bottom_stress" % name, SITE % name,
+                           "cached ustar %r differs from fresh %r at timestep %d" % (ibm._ustar, fresh, tstep), cs)
+                # the decision itself: tau = 3*ub^2 is 0, 0.03 (< 0.12), 0.27, 0.75 (> 0.12)
+                want = ub >= 0.3
+                got = seen.get("a")
+                ctx.oracle(got is not None and len(got) == n and bool(np.all(got == want)),
+                           "C08.%s.resuspension_not_by_current_stress" % name, SITE % name,
+                           "bottom speeds %r with taucrit 0.12: resuspended %r, expected %r" % (ub.tolist(), None if got is None else got.tolist(), want.tolist()), cs)
+
+
+# ---------------------------------------------------------------------------------------- C08's own input classes
+def speeds_around(rng, tcs):
+    """per particle a bottom speed making tau = 1000*0.003*s^2 below / at / above the particle's own threshold"""
+    ub = np.zeros(len(tcs))
+    for i, tc in enumerate(tcs):
+        tc = 0.12 if (tc is None or tc >= 1000) else tc
+        s_at = math.sqrt(tc / 3.0) if tc > 0 else 0.0
+        ub[i] = rng.choice([0.0, s_at, s_at * (1 - 1e-9), s_at * (1 + 1e-9), 2 * s_at + 0.01, 0.3 * s_at,
+                            s_at * 0.9, s_at * 1.1])
+    vb = np.array([rng.choice([0.0, 0.0, 0.01]) for _ in tcs])
+    return ub, vb
+
+
+def thresholds(name, case):
+    if name == "mine":
+        return [case["taucrit"]] * len(case["x"])
+    return ibmrun.sed_taucrit_per_particle(case, case["x"], case["y"])[0]
+
+
+def make_gens(rasters):
+    def sed_gen(rng, n=None, force_map=False, **kw):
+        c = ibmrun.sed_case(rng, n, **kw)
+        if rasters and (force_map or rng.random() < 0.35):
+            ras = rng.choice(rasters)
+            c["taucrit_map"] = dict(method=rng.choice(["grain_size_bin", "grain_size_poly"]), source=ras["source"],
+                                    varname=ras["varname"], grain=ras["grain"], clon=ras["clon"], clat=ras["clat"])
+            c["taucrit"] = 0.12          # placeholder (a critical stress is configured); per particle: res["meta"]["tc"]
+            c["taucrit_dict"] = False
+            # the stub grid maps X in [2, 19] to one cell before .. one cell after the raster's longitudes and Y
+            # likewise to its latitudes (different slopes, so exchanging the two axes changes the cells)
+            env = c["env"]
+            clon, clat = ras["clon"], ras["clat"]
+            dlon = clon[1] - clon[0]; dlat = clat[1] - clat[0]
+            env.lonx = (len(clon) + 2) * dlon / 17.0
+            env.lon0 = clon[0] - 1.5 * dlon - 2.0 * env.lonx
+            env.laty = (len(clat) + 2) * dlat / 17.0
+            env.lat0 = clat[0] - 1.5 * dlat - 2.0 * env.laty
+            c["ub"], c["vb"] = speeds_around(rng, thresholds("sedimentation", c))
+        return c
+
+    def mine_gen(rng, n=None, **kw):
+        c = ibmrun.mine_case(rng, n, **kw)
+        if rng.random() < 0.1 and not c.get("no_active"):
+            c["taucrit"] = 999.9         # just below the "no resuspension" mark: resuspension is configured
+        # bottom speeds around the mining configuration's own threshold (the shared generator draws them around the
+        # threshold of the sedimentation case it starts from)
+        c["ub"], c["vb"] = speeds_around(rng, thresholds("mine", c))
+        if rng.random() < 0.3:
+            c["vadv"] = True
+            c["wz"] = rng.choice([1e-5, -1e-5, 1e-4])
+        return c
+    return dict(sedimentation=sed_gen, mine=mine_gen)
+
+
+def change_forcing(ctx, name, case, state):
+    """between two updates of a history the bottom current changes (new speeds around each particle's threshold at its
+    current position)"""
+    if len(case["x"]) and ctx.rng.random() < 0.7:
+        case = dict(case)
+        case["ub"], case["vb"] = speeds_around(ctx.rng, thresholds(name, case))
+        ctx.branch("%s.bottom_current_changes_between_steps" % name)
+    return case
+
+
+def map_histories(ctx, rasters):
+    """histories under a grain-size map in which the tracker carries the suspended particles across raster cells
+    (+-4 grid cells in X and Y), often down to just above the bed so that they settle in the new cell, particles are
+    removed / released and the bottom current is re-drawn around the threshold of each particle's current cell: the
+    critical stress must always be the one of the cell nearest to the particle's current position"""
+    gen = make_gens(rasters)["sedimentation"]
+    drv = Driver()
+    use_drv = drv.available and not getattr(ctx, "widened", False)
+    name = "sedimentation"
+    pending = []
+    for h in range(ctx.n(25, 300)):
+        case = gen(ctx.rng, n=ctx.rng.randrange(2, 7), force_map=True)
+        ibm = None; state = None
+        cells = None
+        for s_ in range(ctx.rng.randrange(3, 8)):
+            res = ibmrun.sed_run(case, ctx.sub_seed(), drv if use_drv else None, ibmrun.tail_injector(ctx.rng, 0.1),
+                                 ibm=ibm, state=state)
+            ibm, state = res["ibm"], res["state"]
+            state.timestep = state.timestep + 1
+            ctx.case(key=(name, "map_hist", h, s_, repr(ibmrun.case_summary(case))), nontrivial=True)
+            ctx.branch("sedimentation.map_history_step")
+            now = list(res["meta"]["tc"])
+            if cells is not None and len(cells) == len(now) and cells != now:
+                ctx.branch("sedimentation.map_history_threshold_of_a_particle_changed")
+            oracle(ctx, name, case, res)
+            pending.append((name, case, res))
+            case = c05.refresh_case(name, case, res)
+            # the tracker: suspended particles only
+            env = case["env"]
+            X = state["X"]; Y = state["Y"]; Z = state["Z"]
+            act = np.asarray(state["active"]) != 0
+            for i in range(len(X)):
+                if act[i] and ctx.rng.random() < 0.7:
+                    X[i] = min(19.0, max(2.0, X[i] + ctx.rng.uniform(-4, 4)))
+                    Y[i] = min(19.0, max(2.0, Y[i] + ctx.rng.uniform(-4, 4)))
+                    Hn = float(env.depth(X[i], Y[i]))
+                    Z[i] = Hn * (1 - 2.0 ** -40) if ctx.rng.random() < 0.5 else min(Z[i], Hn)
+            cells = list(ibmrun.sed_taucrit_per_particle(case, np.asarray(X), np.asarray(Y))[0])
+            case = c05.between_steps(ctx, name, case, state)
+            if len(case["x"]) == 0:
+                break
+            if len(cells) != len(case["x"]):
+                cells = None
+            case = change_forcing(ctx, name, case, state)
+    if use_drv:
+        replies = drv.run()
+        for nm, case, res in pending:
+            if "finish" in res:
+                res["finish"](replies)
+            c05.compare(ctx, nm, case, res, c05.KEYS[nm])
+    else:
+        for nm, case, res in pending:
+            exp, got = res["sched"]
+            if exp != got:
+                ctx.disagreement("%s.draw_schedule" % nm, "model declares %r, implementation requested %r" % (exp, got),
+                                 dict(module=nm, case=ibmrun.case_summary(case)))
 
 
 def run(ctx):
-    c05.run(ctx, modules=["sedimentation", "mine"], oracle=oracle)
+    tmp = tempfile.mkdtemp(prefix="verif_c08_maps_")
+    try:
+        rasters = make_rasters(ctx, tmp, ctx.n(5, 25), tag="m")
+        c05.run(ctx, modules=["sedimentation", "mine"], oracle=oracle, extras=True, gens=make_gens(rasters),
+                between=change_forcing)
+        map_histories(ctx, rasters)
+    finally:
+        shutil.rmtree(tmp, ignore_errors=True)
     drv = Driver()
     if getattr(ctx, "widened", False):
         drv.available = False
